@@ -172,6 +172,16 @@ CHECKS["C15"] = (
     "DESIGN.md section 6, C15",
 )
 
+CHECKS["C12"] = (
+    "Hypothesis-generated baselines fitted under three profiles; admissibility predicates on the stored document and a curve-agreement differential keyed by cause",
+    "Generated-input search over baselines of every listed regime (incl. awkward weather, outliers, level shifts) under the current, "
+    "legacy and billing profiles: every stored sub-model is checked against the admissibility predicates with the segment's days "
+    "recomputed from the data, and every fitted component's kept coefficients are re-evaluated against its fitted values; mismatches "
+    "are attributed to their cause through hook H1 and two causes are listed as known findings.",
+    "Trusted: vf/ref/daily_curve.py routing; hook H1 (raw optimiser vector) for attribution only.",
+    "DESIGN.md section 6, C12",
+)
+
 PENDING_REASON = "check not built yet in this session (work in progress; property-based testing applies and is planned, see DESIGN.md section 6)"
 
 
